@@ -23,7 +23,7 @@ autobins = true
 [workspace]
 
 [dependencies]
-ruint = {{ path = "/repo", features = {features} }}
+ruint = {{ path = "{repo}", features = {features} }}
 {extra_deps}
 
 [profile.dev]
@@ -50,10 +50,10 @@ def make_crate(root, name, bins, ctx, with_deps):
     os.makedirs(os.path.join(root, ".cargo"))
     feats = FEATURES if with_deps else ["std"]
     with open(os.path.join(root, "Cargo.toml"), "w") as f:
-        f.write(CARGO_TOML.format(name=name, features=json.dumps(feats), extra_deps=EXTRA_DEPS if with_deps else ""))
+        f.write(CARGO_TOML.format(name=name, repo=ctx.get("REPO", "/repo"), features=json.dumps(feats), extra_deps=EXTRA_DEPS if with_deps else ""))
     with open(os.path.join(root, ".cargo", "config.toml"), "w") as f:
         f.write("[net]\noffline = true\n")
-    shutil.copy(os.path.join(ctx["ROOT"], "harness", "Cargo.lock"), os.path.join(root, "Cargo.lock"))
+    shutil.copy(os.path.join(ctx.get("HARNESS", os.path.join(ctx["ROOT"], "harness")), "Cargo.lock"), os.path.join(root, "Cargo.lock"))
     for b, src in bins.items():
         with open(os.path.join(root, "src", "bin", b + ".rs"), "w") as f:
             f.write(src)
@@ -185,7 +185,7 @@ fn main() {{
 def run_illformed(tier, ctx):
     """Returns (evaluations, distinct, samples, violations{sig: rec}, inconclusive[], detail)."""
     root = os.path.join(ctx["WORK"], "probe-illformed")
-    target = os.path.join(ctx["ROOT"], "target", "probe-illformed")
+    target = os.path.join(ctx.get("TARGET", os.path.join(ctx["ROOT"], "target")), "probe-illformed")
     bins = {}
     meta = {}
     for (b, l) in ILL_PAIRS:
@@ -278,7 +278,7 @@ def run_illformed(tier, ctx):
 
 def replay_illformed(rec, ctx):
     root = os.path.join(ctx["ROOT"], "build", "replay-illformed")
-    target = os.path.join(ctx["ROOT"], "target", "probe-illformed")
+    target = os.path.join(ctx.get("TARGET", os.path.join(ctx["ROOT"], "target")), "probe-illformed")
     ctx2 = dict(ctx)
     ctx2["WORK"] = os.path.dirname(root)
     make_crate(root, "probe_illformed", {"replay": rec["program"]}, ctx2, with_deps=True)
@@ -494,7 +494,7 @@ def build_negative_program(bad, good):
 def run_macro(tier, seed, ctx):
     rng = random.Random(seed * 7919 + 17)
     root = os.path.join(ctx["WORK"], "probe-macro")
-    target = os.path.join(ctx["ROOT"], "target", "probe-macro")
+    target = os.path.join(ctx.get("TARGET", os.path.join(ctx["ROOT"], "target")), "probe-macro")
     n_pos_crates, per = (4, 110) if tier == "quick" else (40, 200)
     n_neg, per_neg = (1, 160) if tier == "quick" else (12, 400)
     bins, pos_meta, neg_meta = {}, {}, {}
@@ -632,7 +632,7 @@ def run_macro(tier, seed, ctx):
 
 def replay_macro(rec, ctx):
     root = os.path.join(ctx["ROOT"], "build", "replay-macro")
-    target = os.path.join(ctx["ROOT"], "target", "probe-macro")
+    target = os.path.join(ctx.get("TARGET", os.path.join(ctx["ROOT"], "target")), "probe-macro")
     ctx2 = dict(ctx)
     make_crate(root, "probe_macro", {"replay": rec["program"]}, ctx2, with_deps=False)
     arts, diags, rc, tail = cargo_build(root, target, ctx2)
